@@ -6,7 +6,7 @@ def run(tier, replay=None):
     ck = Check("C13", tier, "model_checking")
     mod = os.path.join(REPO, "pkg/slice")
     hp = [os.path.join(VERIF, "harness/slice"), API_DIR]
-    L = 3 if tier == "quick" else 4
+    L = 3 if tier == "quick" else 6
     env = {"VERIF_L": str(L)}
     ck.bounds = {"max_slice_length": L, "element_types": "int (BitVec 64); string of one symbolic byte for Sort/Distinct/Zip",
                  "instruction_budget_per_path": 2000000}
@@ -20,6 +20,14 @@ def run(tier, replay=None):
                     timeout=200 if tier == "quick" else 1500)
     ck.add_run(res)
     ck.handle_violations(res, rp, env=env)
-    cross_solver(ck, mod, hp, "slice", "^Harness_C13_(Sort|Filter|Scans|Fold)$", env=env)
+    if tier != "quick":
+        # the harnesses that do not go through the std sort scale further
+        env8 = {"VERIF_L": "8"}
+        ck.bounds["max_slice_length_non_sort_functions"] = 8
+        res = run_symgo(mod, hp, "slice", "^Harness_C13_(LengthEmpty|Item|Ends|EndsEmpty|Push|TakeSkip|Map|Filter|Zip|ZipMismatch|Scans|Fold|AppendConcatCollect|Distinct|DistinctStrings)$",
+                        steps=2000000, env=env8, maxpaths=400000, timeout=900)
+        ck.add_run(res)
+        ck.handle_violations(res, rp, env=env8)
+    cross_solver(ck, mod, hp, "slice", "^Harness_C13_(Sort|Filter|Scans|Fold)$", env={"VERIF_L": "3"})
     engine_selftest(ck)
     return ck.finish()
